@@ -1285,7 +1285,19 @@ func (schema *Schema) visitNotOperation(settings *schemaValidationSettings, valu
 		if v == nil {
 			return foundUnresolvedRef(ref.Ref)
 		}
-		if err := v.visitJSON(settings, value); err == nil {
+		// a schema the value must NOT match shall not inject its defaults into the value: like the oneOf/anyOf
+		// candidates, it is tried on a private copy under the request / response reading
+		tempValue := value
+		private := settings.asreq || settings.asrep
+		if private {
+			tempValue = deepcopy.Copy(value)
+			settings.trial++
+		}
+		err := v.visitJSON(settings, tempValue)
+		if private {
+			settings.trial--
+		}
+		if err == nil {
 			if settings.failfast {
 				return errSchema
 			}
